@@ -30,7 +30,7 @@ from lib.core import exc_name
 
 ID = "C19"
 AUDIT_IMPORTS = ["HypatiaProofs.Properties.C19", "HypatiaProofs.Properties.C19Index",
-                 "HypatiaProofs.Properties.C19Text"]
+                 "HypatiaProofs.Properties.C19Text", "HypatiaProofs.Properties.C19TextFull"]
 THEOREMS = ["Hyp.Concurrency." + t for t in (
     "c19_conflict_no_trace", "c19_both_visible_serial", "c19_mergeKey_cases", "c19_merge_is_serial",
     "c19_length_merge", "c19_write_skew_needs_rw")] + ["Hyp.CIdx." + t for t in (
@@ -42,7 +42,11 @@ THEOREMS = ["Hyp.Concurrency." + t for t in (
     # text index at object level (Properties/C19Text.lean)
     "c19_text_first_new_wid", "c19_text_new_words_conflict", "c19_text_wordinfo_key_conflict",
     "c19_text_dict_posting_conflict", "c19_text_cutoff_switch_conflict", "c19_text_tree_posting_merges",
-    "reach_run", "tsound_of_reach", "lextrack_of_reach")]
+    "reach_run", "tsound_of_reach", "lextrack_of_reach",
+    # text index: conflict or serial in full (Properties/C19TextFull.lean)
+    "c19_text_init", "c19_text_txn_refines", "c19_text_reachable_base", "c19_text_conflict_or_serial",
+    "c19_text_serial_refines", "c19_text_observable", "c19_text_merged_observes_serial", "c19_text_freq_ok",
+    "tframe_run", "tmerged_inv")]
 CASES = {"quick": 640, "thorough": 12000}
 BUDGET_S = {"quick": 50, "thorough": 800}
 BATCH = 10
@@ -54,26 +58,34 @@ RULE = ("a committed base state (0-12 operations on a catalog with field, keywor
         "loser aborts); a third connection with an empty cache is then compared - complete observable state "
         "and query battery - with an in-memory catalog that ran the base and then the committed transactions "
         "one after the other; the same operations are replayed on the object-level Lean model (field, keyword, "
-        "facet index as heaps of persistent objects) whose merge must succeed whenever both real commits did, "
+        "facet, Okapi-text and cosine-text index as heaps of persistent objects) whose merge must succeed whenever both real commits did, "
         "with the same stored state. non-trivial = both transactions change something and at least one posting / "
         "word is shared between them")
 LEVEL_TEXT = ("Lean 4: (1) generic optimistic commit with three-way merges: merged = serial when every doubly "
               "written position merges and the second transaction read nothing the first wrote; (2) per-index "
-              "object layer: field, keyword and facet index as heaps of persistent objects (forward tree key -> "
-              "reference, posting objects with their own identity incl. the Set -> TreeSet replacement, reverse "
-              "tree, not-indexed set, Length) with read/write footprints and BTrees' rules (per-key merge, "
+              "object layer: field, keyword, facet and text index as heaps of persistent objects (forward tree key "
+              "-> reference, posting objects with their own identity incl. the Set -> TreeSet replacement; for "
+              "the text index the lexicon's two trees and Length with _new_wid's skip loop, _wordinfo whose values "
+              "are a plain dict stored in the bucket or a reference to an IFBTree from DICT_CUTOFF members on, "
+              "_docwords, _docweight, three Lengths) with read/write footprints and BTrees' rules (per-key merge, "
               "conflict when both changed a key, when the committed or new state is empty, when the merged one "
-              "would be). Field index and keyword index (repaired code, any tree_threshold), for all bases "
-              "satisfying the C01 / C02 invariant and all operation lists on disjoint docids: the second commit "
-              "conflicts or the merged heap satisfies the invariant for the serial table "
-              "(c19_field_conflict_or_serial, c19_keyword_conflict_or_serial; queries, counts, statistics = "
-              "serial). D20 as theorems: the unrepaired replacement merges and loses the update (witness); "
-              "repaired code: replacing a posting object the other side wrote always conflicts. Runtime half: "
-              "two real connections vs serial replay, and real ok+ok => model merge ok with the same stored state")
+              "would be). Field index, keyword index (repaired code, any tree_threshold) and text index (Okapi and "
+              "cosine, any DICT_CUTOFF), for all bases satisfying the object-level C01 / C02 / C03+C06 invariant "
+              "and all operation lists on disjoint docids: the second commit conflicts or the merged heap "
+              "satisfies the invariant for the serial table (c19_field_/keyword_/text_conflict_or_serial; "
+              "queries, counts, statistics, document words = serial). Text-specific: two transactions that both "
+              "add a word to the lexicon always conflict (same _words key), both changing a dict-valued posting "
+              "conflict, the dict -> IFBTree switch against a dict update conflicts, an IFBTree posting changed at "
+              "different docids merges. D20 as theorems: the unrepaired replacement merges and loses the update "
+              "(witness); repaired code: replacing a posting object the other side wrote always conflicts. "
+              "Runtime half: two real connections vs serial replay, and real ok+ok => model merge ok with the "
+              "same stored state, for all five indexes")
 LEVEL_NOTE = ("partial: thread scheduling, MVCC, storage and the real conflict-resolution code are ZODB/BTrees' "
               "(trusted, sampled; the model's merge rules are a subset of BTrees' refusals, checked in the "
-              "direction real success => model success); the conflict-or-serial theorem is proved for the field "
-              "and the keyword index; facet index: object model and runs only; text indexes: runs only")
+              "direction real success => model success - e.g. real BTrees refuse every doubly written _wordinfo "
+              "bucket that holds a dict-valued key because dicts are not orderable); the conflict-or-serial "
+              "theorem is proved for the field, the keyword and the text index; facet index: object model and "
+              "runs only")
 TECHNIQUE = "Lean 4 proof about the three-way-merge abstraction + two-connection differential run on a real FileStorage"
 
 c09 = importlib.import_module("props.c09")
